@@ -2,10 +2,12 @@
 //! harness. Only compiled with the `verif_hooks` feature; not part of the public
 //! API and without any effect on the engine.
 
+use std::sync::Arc;
+
 use qbice_storage::key_of_set_map::ConcurrentSet;
 
 use super::database::CompressedBackwardEdgeSet;
-use crate::query::QueryID;
+use crate::{Engine, Query, config::Config, query::QueryID};
 
 /// The tiered (small vector / large concurrent set) container that holds the
 /// backward edges (callers) of one query.
@@ -48,4 +50,79 @@ impl BackwardEdgeSet {
     /// A snapshot of the callers.
     #[must_use]
     pub fn to_vec(&self) -> Vec<QueryID> { self.0.iter().collect() }
+}
+
+/// A read-only picture of the persisted bookkeeping of one query.
+#[derive(Debug, Clone, PartialEq, Eq)]
+pub struct NodeDump {
+    /// The identifier of the query.
+    pub id: QueryID,
+    /// The timestamp at which the query was last verified (`None`: never
+    /// computed).
+    pub last_verified: Option<u64>,
+    /// The timestamp of a pending backward projection, if any.
+    pub pending_backward_projection: Option<u64>,
+    /// The recorded transitive firewall callees.
+    pub transitive_firewall_callees: Vec<QueryID>,
+    /// The recorded dependencies, in order (unordered groups flattened).
+    pub forward: Vec<QueryID>,
+    /// The dependencies for which an observation is recorded.
+    pub observed: Vec<QueryID>,
+    /// The dependencies whose edge is currently marked dirty.
+    pub dirty_forward: Vec<QueryID>,
+}
+
+/// Reads the persisted bookkeeping of `query`. Does not change anything.
+pub async fn dump_node<C: Config, Q: Query>(
+    engine: &Arc<Engine<C>>,
+    query: &Q,
+) -> NodeDump {
+    let with_id = engine.new_query_with_id(query);
+    let id = with_id.id;
+
+    let mut snapshot =
+        engine.get_read_snapshot::<Q>(id.compact_hash_128()).await;
+
+    let last_verified =
+        snapshot.last_verified().await.map(|x| x.0.verif_raw());
+    let pending_backward_projection = snapshot
+        .pending_backward_projection()
+        .await
+        .map(|x| x.0.verif_raw());
+    let transitive_firewall_callees = snapshot
+        .node_info()
+        .await
+        .map(|info| {
+            info.transitive_firewall_callees().iter().copied().collect()
+        })
+        .unwrap_or_default();
+    let forward: Vec<QueryID> = snapshot
+        .forward_edge_order()
+        .await
+        .map(|order| order.iter_all_callees().collect())
+        .unwrap_or_default();
+    let observed = snapshot
+        .forward_edge_observation()
+        .await
+        .map(|obs| obs.0.keys().copied().collect())
+        .unwrap_or_default();
+
+    drop(snapshot);
+
+    let mut dirty_forward = Vec::new();
+    for callee in &forward {
+        if engine.is_edge_dirty(id, *callee).await {
+            dirty_forward.push(*callee);
+        }
+    }
+
+    NodeDump {
+        id,
+        last_verified,
+        pending_backward_projection,
+        transitive_firewall_callees,
+        forward,
+        observed,
+        dirty_forward,
+    }
 }
